@@ -76,7 +76,14 @@ func (d *recDispatcher) Send(path string) error {
 	if d.dead != nil && d.dead() {
 		vfs.Park()
 	}
-	b, err := os.ReadFile(path)
+	var b []byte
+	fi, err := os.Lstat(path)
+	if err == nil && !fi.Mode().IsRegular() {
+		err = fmt.Errorf("not a regular file (mode %v)", fi.Mode()) // never read through a link (it may lead to a device)
+	}
+	if err == nil {
+		b, err = os.ReadFile(path)
+	}
 	ev := delivered{Path: path, At: time.Now()}
 	if rel, e := filepath.Rel(d.final, path); e == nil {
 		ev.Rel = rel
